@@ -300,6 +300,12 @@ def _rows(ctx) -> None:
         def ob(self, rule, func, role, ok, what, node=None, message="", witness=""):
             return ctx.ob("c.uniform-rows", func, role, ok, what, node, message, witness)
     c07._rows(Px())
+    # an EMPTY selection must stay empty: the shared helper behind slicing (Vector.copy) selects its default by `is None`, never by
+    # the truth value of the new values (an empty tuple is falsy) - shared with C07.b
+    g = ctx.prog.func("vector.Vector.copy")
+    probs = c07._falsy_uses(ctx.prog, g)
+    ctx.ob("c.uniform-rows", g, "empty-selection", not probs, "copy(new_values) keeps an empty selection empty", g.node,
+           message="; ".join(probs))
 
 
 def _row_view(ctx) -> None:
@@ -531,6 +537,19 @@ def _structural(ctx) -> None:
                 probs.append(f"row i is built from `{show(cv, st.it)[:50]}`, not from col[i] for all columns")
     if not n:
         raise AnalysisError("Table.T: no transposed Table construction found")
+    # every result of .T is built in this call: a remembered transposed table is a second handle on one object - a write through
+    # an earlier result would show in the next t.T (and in t.T.T)
+    from ..sites2 import leaves as _lv
+    built = {st.call for st in all_sites2(prog) if st.top is g and st.it is it}
+    for e in it.events:
+        if e.kind == "return" and e.depth == 0:
+            for lf in _lv(e.term):
+                if lf not in built:
+                    probs.append(f"`return {show(lf, it)[:40]}` (line {getattr(e.node, 'lineno', '?')}) hands out an object that was not built in "
+                                 f"this call: a transposed table kept from an earlier call is shared with whoever received it then")
+    for e in it.events:
+        if e.kind == "store" and e.term[0] == "attr" and e.term[1] == SELF and e.term[2] not in ("_fp", "_fp_powers"):
+            probs.append(f"Table.T stores `{show(e.term, it)[:30]}` on the table: a read-only operation keeps its result on its operand")
     ctx.ob("e.structural-ops", g, ".T", not probs, "row i of .T = cells [i] of all columns", g.node, message="; ".join(probs[:2]))
     gi = prog.func("table.Table.__getitem__")
     it = interp_of(prog, gi)
